@@ -105,7 +105,7 @@ type Profile struct {
 	MaxFiles  int
 	Comments  bool // attach leading comments (descriptions)
 	CrossPkg  bool // bias towards several files, a sub-package first, and references across files
-	Collide   int  // >0: add descriptors whose split names (path joined by "_") coincide (variant 1..4, see addCollision)
+	Collide   int  // >0: add descriptors whose split names (path joined by "_") coincide (variant 1..5, see addCollision)
 	Clash     bool // add a message whose exposed oneof and a field get the same JSON property name
 	FlatCycle int  // >0: add a crafted cycle of that many messages each flattening the next (negative: with a chain leading into it)
 	Services  int  // percent chance that a generated file gets services / topics (addServices; C15)
@@ -227,7 +227,7 @@ func Generate(r *vh.Rand, p Profile, deps []*descriptorpb.FileDescriptorProto) *
 			parts := strings.Split(fd.GetPackage(), ".")
 			last := parts[len(parts)-1]
 			inSub := len(last) > 0 && !(last[0] == 'v' && len(last) > 1 && last[1] >= '0' && last[1] <= '9')
-			if r.Chance(p.Services) && (inSub || r.Chance(20)) {
+			if r.Chance(p.Services) && (inSub || r.Chance(35)) {
 				addServices(g, fd, fi)
 			}
 		}
@@ -1789,6 +1789,18 @@ func addCollision(fd *descriptorpb.FileDescriptorProto, variant int) {
 		colKind.Field = []*descriptorpb.FieldDescriptorProto{
 			{Name: proto.String("x"), Number: proto.Int32(1), Label: opt, Type: descriptorpb.FieldDescriptorProto_TYPE_STRING.Enum()},
 		}
+	case 5:
+		// variant 5: as 3, and a message-typed FIELD of the message with the enum's name after the enum
+		// field (buildMessageFieldSchema finds the ref linked to the enum schema: an error since d286176,
+		// before that an ObjectField whose Ref.To is the EnumSchema and a panic in ObjectField.Schema())
+		col.Field = append(col.Field,
+			&descriptorpb.FieldDescriptorProto{Name: proto.String("kind"), Number: proto.Int32(1), Label: opt,
+				Type: descriptorpb.FieldDescriptorProto_TYPE_ENUM.Enum(), TypeName: proto.String(pkg + ".Col.Kind")},
+			&descriptorpb.FieldDescriptorProto{Name: proto.String("ck"), Number: proto.Int32(2), Label: descriptorpb.FieldDescriptorProto_LABEL_REPEATED.Enum(),
+				Type: descriptorpb.FieldDescriptorProto_TYPE_MESSAGE.Enum(), TypeName: proto.String(pkg + ".Col_Kind")})
+		colKind.Field = []*descriptorpb.FieldDescriptorProto{
+			{Name: proto.String("note"), Number: proto.Int32(1), Label: opt, Type: descriptorpb.FieldDescriptorProto_TYPE_STRING.Enum()},
+		}
 	case 4:
 		// variant 4: an exposed real oneof Col.pick and a message Col_pick
 		oo := &descriptorpb.OneofOptions{}
@@ -1926,7 +1938,7 @@ func addServices(g *gen, fd *descriptorpb.FileDescriptorProto, fi int) {
 			suffix = "Topic"
 		case r.Chance(15):
 			suffix = "Sandbox"
-		case r.Chance(8):
+		case r.Chance(20):
 			suffix = "Events"
 		}
 		if odd() {
@@ -1982,9 +1994,12 @@ func addServices(g *gen, fd *descriptorpb.FileDescriptorProto, fi int) {
 				m.OutputType = proto.String(msg(mn+"Response", "ok"))
 			}
 			path := pick(g, []string{"/foo/v1/x", "/foo/v1/{id}", "/foo/v1/{tenant_id}/x/{id}", "/", "", "/a//b", "/foo/{q}/"})
-			if odd() {
-				path = pick(g, []string{"/foo/{missing}", "/foo/a*b", "/foo/{id", "/foo/id}", "/foo/{}", "/foo/x:y", "/{", "/foo/{id}/{nope}"})
-				g.tag("service-path-invalid")
+			if r.Chance(22) {
+				// path parts around the two tests of buildMethod: "{field}" with and without such a field, and
+				// parts containing one of "{}*:" that are not of that form
+				path = pick(g, []string{"/foo/{missing}", "/foo/a*b", "/foo/{id", "/foo/id}", "/foo/{}", "/foo/x:y", "/{", "/foo/{id}/{nope}",
+					"/foo/:id", "/a/b*", "/{id}x", "/x{id}", "/foo/{id}:cancel", "/foo/{id}/:x", "/*", "/a:b/{id}", "/{id}/{q}/{tenant_id}", "/}{"})
+				g.tag("service-path-edge")
 			}
 			rule := &annotations.HttpRule{}
 			switch r.Intn(5) {
